@@ -49,6 +49,31 @@ pub open spec fn fits_base(base: Type, v: isize) -> bool {
         _ => true,
     }
 }
-pub uninterp spec fn spec_doc(attrs: Seq<Attribute>) -> Option<Seq<char>>;
+// ---------- documentation (C17) ----------
+/// the text of a documentation line: `#[doc = "text"]` (what the parser makes of `/// text`)
+pub open spec fn doc_line(a: Attribute) -> Option<Seq<char>> {
+    match a {
+        Attribute::Assign(key, Expr::StringLiteral(v)) => if key.0@ == "doc"@ { Some(v@) } else { None },
+        _ => None,
+    }
+}
+/// a `doc` attribute whose value is not a string literal (rejected)
+pub open spec fn doc_bad(a: Attribute) -> bool {
+    a is Assign && a->Assign_0.0@ == "doc"@ && !(a->Assign_1 is StringLiteral)
+}
+/// the documentation lines among the first n attributes, in order, one per line ("line for line and in order"):
+/// no line -> None; otherwise the lines separated by a newline
+pub open spec fn spec_doc_upto(attrs: Seq<Attribute>, n: int) -> Option<Seq<char>>
+    decreases n
+{
+    if n <= 0 { None } else {
+        let prev = spec_doc_upto(attrs, n - 1);
+        match doc_line(attrs[n - 1]) {
+            Some(v) => Some(match prev { Some(d) => d + seq!['\n'] + v, None => v }),
+            None => prev,
+        }
+    }
+}
+pub open spec fn spec_doc(attrs: Seq<Attribute>) -> Option<Seq<char>> { spec_doc_upto(attrs, attrs.len() as int) }
 pub open spec fn opt_string_view(o: Option<String>) -> Option<Seq<char>> { match o { Some(s) => Some(s@), None => None } }
 }
